@@ -2,6 +2,21 @@ from ..abbreviation import parse, Abbreviation, AbbreviationNode, AbbreviationAt
 from ..config import Config
 from .utils import walk, find_deepest
 
+def parser_options(config: Config):
+    """
+    Returns options of abbreviation parser for given config. A snippet is an abbreviation
+    as well: it must be parsed with the same options as abbreviation it’s used in
+    """
+    return {
+        'text': config.get('text'),
+        'variables': config.variables,
+        'options': config.options,
+        'max_repeat': config.get('maxRepeat') or config.get('max_repeat'),
+        'jsx': bool(config.options.get('jsx.enabled')),
+        'href': config.options.get('markup.href')
+    }
+
+
 def resolve_snippets(abbr: Abbreviation, config: Config):
     """
     Finds matching snippet from `registry` and resolves it into a parsed abbreviation.
@@ -24,7 +39,7 @@ def resolve_snippets(abbr: Abbreviation, config: Config):
         if not snippet or snippet in stack:
             return None
 
-        snippet_abbr = parse(snippet, config)
+        snippet_abbr = parse(snippet, parser_options(config))
         stack.append(snippet)
         walk_resolve(snippet_abbr, resolve, config)
         stack.pop()
